@@ -37,6 +37,8 @@ type protoCase struct {
 	// C03 history: inputs (hex) decoded into fresh variables of the same type before the round trip - damaged
 	// encodings of OTHER values, whose decoding fails half-way: whatever scratch they leave behind must not show
 	Poison []string `json:"poison,omitempty"`
+	// C07 Scan: the records the input was written from (what Scan has to enumerate)
+	Recs []pRec `json:"recs,omitempty"`
 }
 
 func parseProtoVec(c *Ctx, prop string, raw stdjson.RawMessage) (protoVec, bool) {
@@ -417,9 +419,127 @@ func strLenSweep(c *Ctx, r *rng, shape []pField) []int {
 	return ns
 }
 
+// c03CompositeMaps: maps whose keys are messages (plain structs, nested structs, types that marshal themselves) - a use
+// the standard forbids and the package supports, so outside spec/ProtoCodec.tla and its reference - with every kind of
+// value: round trip and Size, on the entry codecs that are assembled from the key's and the value's own
+type cmPoint struct {
+	X int32
+	Y string
+}
+type cmDeep struct {
+	P cmPoint
+	Z bool
+}
+
+func c03CompositeMaps(c *Ctx) {
+	keys := [][]any{
+		{cmPoint{}, cmPoint{1, "a"}, cmPoint{0, "b"}},
+		{cmDeep{}, cmDeep{cmPoint{2, ""}, true}, cmDeep{cmPoint{}, true}},
+		{PairMsg{}, PairMsg{1, 2}, PairMsg{0, 9}},
+		{CustMsg{}, CustMsg{5}, CustMsg{6}},
+		{int32(0), int32(7), int32(-1)},
+		{"", "k", "kk"},
+	}
+	vals := [][]any{
+		{int32(0), int32(5), int32(-5)},
+		{"", "v", "vv"},
+		{[]byte(nil), []byte{1, 2}, []byte{0}},
+		{cmPoint{}, cmPoint{3, "p"}, cmPoint{0, "q"}},
+		{(*cmPoint)(nil), &cmPoint{3, "p"}, &cmPoint{}},
+		{cmDeep{}, cmDeep{cmPoint{4, "d"}, false}, cmDeep{cmPoint{}, true}},
+		{proto.RawMessage(nil), proto.RawMessage{0x08, 0x01}, proto.RawMessage{0x12, 0x01, 'r'}},
+		{PairMsg{}, PairMsg{3, 4}, PairMsg{0, 1}},
+		{(*PairMsg)(nil), &PairMsg{3, 4}, &PairMsg{}},
+		{CustMsg{}, CustMsg{9}, CustMsg{1}},
+		{(*CustMsg)(nil), &CustMsg{9}, &CustMsg{}},
+	}
+	for ki, ks := range keys {
+		for vi, vs := range vals {
+			if ki >= 4 && vi < 3 {
+				continue // scalar keys with scalar values: the model's ground
+			}
+			kt, vt := reflect.TypeOf(ks[0]), reflect.TypeOf(vs[0])
+			mt := reflect.MapOf(kt, vt)
+			st := reflect.StructOf([]reflect.StructField{{Name: "A", Type: reflect.TypeOf(int32(0))}, {Name: "M", Type: mt}, {Name: "Z", Type: reflect.TypeOf("")}})
+			for n := 0; n <= 3; n++ { // entries: none, the zero key with the zero value, then more
+				m := reflect.MakeMap(mt)
+				for i := 0; i < n; i++ {
+					m.SetMapIndex(reflect.ValueOf(ks[i]), reflect.ValueOf(vs[(i+n)%3]))
+				}
+				v := reflect.New(st).Elem()
+				v.Field(0).SetInt(int64(n))
+				v.Field(1).Set(m)
+				v.Field(2).SetString("z")
+				k := protoCase{What: fmt.Sprintf("composite map: map[%v]%v with %d entries", kt, vt, n)}
+				fail := func(api, w, g string) { c.Diverge("C03", api+"(map with message keys or self-marshalling values)", w, g, "", k) }
+				var b []byte
+				var err error
+				size := -1
+				c.Eval(1)
+				if p := protect(func() { b, err = proto.Marshal(v.Interface()); size = proto.Size(v.Interface()) }); p != "" || err != nil {
+					fail("proto.Marshal", "nil error", fmt.Sprintf("%v %s", err, p))
+					continue
+				}
+				if size != len(b) {
+					fail("proto.Size", fmt.Sprintf("len(Marshal)=%d", len(b)), fmt.Sprint(size))
+				}
+				out := reflect.New(st)
+				if p := protect(func() { err = proto.Unmarshal(b, out.Interface()) }); p != "" || err != nil {
+					fail("proto.Unmarshal(Marshal(v))", "nil error", fmt.Sprintf("%v %s bytes=%x", err, p, b))
+					continue
+				}
+				got := out.Elem()
+				same := got.Field(0).Int() == int64(n) && got.Field(2).String() == "z" && got.Field(1).Len() == n
+				if same && n > 0 {
+					same = cmEqual(m, got.Field(1))
+				}
+				if !same {
+					fail("proto.Unmarshal(Marshal(v))", fmt.Sprintf("%+v", v.Interface()), fmt.Sprintf("%+v bytes=%x", got.Interface(), b))
+				}
+			}
+		}
+	}
+}
+
+// cmEqual: the same entries; values compared through pointers, nil and empty byte slices alike
+func cmEqual(a, b reflect.Value) bool {
+	it := a.MapRange()
+	for it.Next() {
+		bv := b.MapIndex(it.Key())
+		if !bv.IsValid() {
+			return false
+		}
+		x, y := it.Value(), bv
+		if x.Kind() == reflect.Pointer {
+			if x.IsNil() != y.IsNil() {
+				// a nil pointer to a message and a pointer to the empty message are written alike
+				if (x.IsNil() && !y.Elem().IsZero()) || (y.IsNil() && !x.Elem().IsZero()) {
+					return false
+				}
+				continue
+			}
+			if x.IsNil() {
+				continue
+			}
+			x, y = x.Elem(), y.Elem()
+		}
+		if x.Kind() == reflect.Slice && x.Len() == 0 && y.Len() == 0 {
+			continue
+		}
+		if !reflect.DeepEqual(x.Interface(), y.Interface()) {
+			return false
+		}
+	}
+	return true
+}
+
 func c03Replay(c *Ctx, raw stdjson.RawMessage) {
 	var k protoCase
 	if stdjson.Unmarshal(raw, &k) == nil {
+		if strings.HasPrefix(k.What, "composite map") {
+			c03CompositeMaps(c)
+			return
+		}
 		c03Run(c, k)
 	}
 }
@@ -880,6 +1000,7 @@ func c07Scan(c *Ctx, k protoCase, recs []pRec) {
 	}
 	c.Eval(1)
 	if err != nil || strings.Join(got, ",") != strings.Join(want, ",") {
+		k.Recs = recs
 		c.Diverge("C07", "proto.Scan", strings.Join(want, ","), fmt.Sprintf("%s err=%v", strings.Join(got, ","), err), "", k)
 	}
 }
@@ -924,6 +1045,18 @@ func c07Vector(c *Ctx, raw stdjson.RawMessage) {
 		}
 		c07Total(c, mu)
 		c07Scan(c, mk("unknown-fields", unk, ""), full.Re["unknown"])
+		// the same fields with longer than necessary tags, lengths and varints (all legal)
+		for _, o := range []wireOpts{{padLens: 1}, {padLens: 2, padVarints: 1}, {padTags: 1, padLens: 1 + r.intn(3), padVarints: r.intn(3)}} {
+			up := l.encodeRecs(full.Re["unknown"], o)
+			if tr, err := refDecode(v.Shape, up); err != nil || treeString(tr) != want {
+				c.SpecError("C07", "reference does not ignore the unknown fields written with padded varints", mk("unknown", up, want))
+				break
+			}
+			c.Case()
+			mp := mk("unknown-fields(padded tags, lengths, varints)", up, mu.Want)
+			c07Total(c, mp)
+			c07Scan(c, mk("unknown-fields(padded tags, lengths, varints)", up, ""), full.Re["unknown"])
+		}
 	}
 	// unknown fields whose numbers share their low 16 bits with the declared ones
 	if recs, ok := full.Re["aliased"]; ok {
@@ -1022,12 +1155,16 @@ func c07Replay(c *Ctx, raw stdjson.RawMessage) {
 			c07TopLevel(c, k, elemType(k.Shape[0].K))
 			return
 		}
+		if len(k.Recs) > 0 {
+			c07Scan(c, k, k.Recs)
+			return
+		}
 		c07Total(c, k)
 	}
 }
 
 func init() {
-	register("C03", &Driver{Vector: c03Vector, Replay: c03Replay})
+	register("C03", &Driver{Vector: c03Vector, Replay: c03Replay, Extra: c03CompositeMaps})
 	register("C12", &Driver{Vector: c12Vector, Replay: c12Replay})
 	register("C16", &Driver{Vector: c16Vector, Replay: c16Replay})
 	register("C07", &Driver{Vector: c07Vector, Replay: c07Replay})
